@@ -230,3 +230,7 @@ CORPUS += [
     V("C10", "greedy-constructor-drops-the-filters", _DEC, 'class Greedy(DecodingStrategy):\n    name = "greedy"\n', 'class Greedy(DecodingStrategy):\n    name = "greedy"\n\n    def __init__(self, **kwargs) -> None:\n        kwargs.update(top_k=0, top_p=0.0)\n        super().__init__(**kwargs)\n', "C10.f"),
     V("C11", "greedy-constructor-drops-the-filters-c11", _DEC, 'class Greedy(DecodingStrategy):\n    name = "greedy"\n', 'class Greedy(DecodingStrategy):\n    name = "greedy"\n\n    def __init__(self, **kwargs) -> None:\n        kwargs.update(top_k=0, top_p=0.0)\n        super().__init__(**kwargs)\n', "C11.i"),
 ]
+
+CORPUS += [
+    V("C14", "mlp-dropouts-in-a-plain-list", "rl4co/models/nn/mlp.py", "        self.dropouts = nn.ModuleList()", "        self.dropouts = []", "C14.g"),
+]
